@@ -728,11 +728,12 @@ fn penalty_for_choice(choice_index: usize) -> u32 {
 }
 
 fn penalty_for_unchosen_course(track_data: &serde_json::Map<String, serde_json::Value>) -> u32 {
-    track_data
+    // The number of choices is taken from the export unchecked, so do not let it overflow.
+    let num_choices = track_data
         .get("num_choices")
         .and_then(|v| v.as_u64())
-        .unwrap_or(0) as u32
-        + 1
+        .unwrap_or(0);
+    (num_choices.min(u32::MAX as u64) as u32).saturating_add(1)
 }
 
 /// Adjust a Course to incorporate the "invisible" (ignored) participants in its size and offsets
